@@ -72,8 +72,32 @@ def build_arg(desc):
     raise ValueError(k)
 
 
+def resolve_nested(qualname):
+    """a function nested in a method ('...Class.__or.<locals>.reduce_ranges'): rebuilt from the code object stored in the
+    enclosing function's constants, with the `__class__` cell it closes over"""
+    import types
+    outer_q, _, inner = qualname.partition(".<locals>.")
+    owner, outer = resolve(outer_q)
+    outer = getattr(outer, "__func__", outer)
+    code = None
+    for c in outer.__code__.co_consts:
+        if isinstance(c, types.CodeType) and c.co_name == inner:
+            code = c
+    if code is None:
+        raise ImportError(qualname)
+    cells = []
+    for fv in code.co_freevars:
+        if fv == "__class__":
+            cells.append(types.CellType(owner))
+        else:
+            raise ImportError(f"{qualname} closes over {fv}")
+    return owner, types.FunctionType(code, outer.__globals__, inner, None, tuple(cells))
+
+
 def resolve(qualname):
     """'pregex.core.pre.Pregex.exactly' -> (owner class or None, attribute name as stored on the class)"""
+    if ".<locals>." in qualname:
+        return resolve_nested(qualname)
     parts = qualname.split(".")
     for i in range(len(parts) - 1, 0, -1):
         try:
@@ -138,7 +162,8 @@ def _check_call(qualname, contract, args, raises):
     if req and not specrt.eval_clause(req, env):
         return {"ok": True, "skipped": "precondition false"}
     try:
-        result = call_real(qualname, args)
+        import copy
+        result = call_real(qualname, {k: (copy.deepcopy(v) if isinstance(v, (list, set)) else v) for k, v in args.items()})
         raised = None
     except BaseException as e:
         raised = e
@@ -208,7 +233,26 @@ TEXTS = ["", "a", "ab", "1a-2-3b-", "7 a8", "a12", "abc abd\nxyz 12", "aXbXc", "
          "lorem ipsum 12 dolor sit amet 345 consectetur a1 adipiscing elit, sed do 6 eiusmod tempor\nincididunt 78 ut labore b2 et dolore 9"]
 
 
+def _range_lists(seed=7, n=400):
+    rnd = random.Random(seed)
+    al = "abcdefghijkl"
+    out = [("[]", [])]
+    for _ in range(n):
+        k = rnd.choice([1, 1, 2, 2, 3, 4])
+        rs = []
+        for _ in range(k):
+            a, b = sorted((rnd.choice(al), rnd.choice(al)))
+            rs.append(f"{a}-{b}")
+        out.append((repr(rs), rs))
+    return out
+
+
 def pool_for(kind):
+    if kind == "rangestrs":
+        return _range_lists()
+    if kind == "charlist":
+        rnd = random.Random(11)
+        return [(repr(x), x) for x in ([[]] + [[rnd.choice("abcdefghijklm") for _ in range(rnd.choice([1, 2, 3]))] for _ in range(60)])]
     if kind == "selfc":
         n = ns()
         out = []
